@@ -741,6 +741,20 @@ impl Property for C05 {
                 }
             }
             p.kerns.clear();
+            // one in four: more than 255 instructions in front, so that entry points do not
+            // fit a u8 and pack_entrypoints has to emit redirect words (and rotate)
+            if rk.chance(1, 4) {
+                let pad = 250 + rk.below(10) as i64;
+                let mut instrs: Vec<[i64; 5]> = (0..pad).map(|_| [-1, 255, 0, 0, 0]).collect();
+                instrs.extend(p.instrs.iter().cloned());
+                p.instrs = instrs;
+                for e in p.entries.iter_mut() {
+                    e.1 += pad;
+                }
+                if p.lb >= 0 {
+                    p.lb += pad;
+                }
+            }
             let ws = random_words(&mut rk, &p, 8, 8);
             v.push(case_of("k", &p, &WordSet::List(ws)));
         }
@@ -760,7 +774,8 @@ impl Property for C05 {
                 let ds = design_size();
                 // C05-b: with a boundary char (or > 255 instructions) pack_entrypoints rotates the
                 // instructions; before the fix the left-boundary entry point field was not rebased.
-                let marker = if cmd == "k" && prog.lb >= 0 && prog.rb >= 0 {
+                let rotates = prog.rb >= 0 || prog.entries.iter().any(|e| e.1 > 255);
+                let marker = if cmd == "k" && prog.lb >= 0 && rotates {
                     out.tag("pack:left-boundary-entry-and-rotation");
                     " [pack: left-boundary entry point after rotation]"
                 } else {
